@@ -247,7 +247,7 @@ theorem updateRef_wsum (s : RState K) (hs : Inv s) (v c : K) (hc : 0 < c) :
   have hi := insertRef_inc v c s.bins hs.inc
   have hp := insertRef_pos v c hc s.bins hs.pos
   obtain ⟨_, _, h⟩ := trimRef_induct (fun l => wsum l = wsum s.bins + v * c)
-    (fun i l _ hp h => by rw [mergeAt_wsum i l hp]; exact h) s.cap (insertRef v c s.bins).length _ hi hp
+    (fun i l hi hp h => by rw [mergeAt_wsum i l hi hp]; exact h) s.cap (insertRef v c s.bins).length _ hi hp
     (insertRef_wsum v c s.bins)
   exact h
 
